@@ -423,7 +423,10 @@ class FieldHandler:
 
     def handled_elsewhere(self, field: Field) -> None:
         # Some fields are handled by extract_fields below.
-        pass
+        if not isinstance(self.obj, model.CanContainImportsDocumentable):
+            # extract_fields() only processes modules and classes docstrings,
+            # so don't discard the field silently.
+            self.handleUnknownField(field)
 
     handle_ivar = handled_elsewhere
     handle_cvar = handled_elsewhere
